@@ -930,7 +930,7 @@ def correspond(res, rng, tier):
       std_cases.append(("stdlib:" + f, s))
   # opcodes the generated corpus really produces must be producible in the model (ties producibleOf to the
   # real reader on 3.12) and dispatchable
-  seen = opcodes_seen([s for _, s in cases[:400]] + [s for _, s in std_cases[:40]])
+  seen = opcodes_seen([c[1] for c in cases[:400]] + [s for _, s in std_cases[:40]])
   prod12 = set(drv.batch(["producible 12"])[0].split())
   intr = set(drv.batch(["intrinsics"])[0].split())
   for n in seen:
